@@ -1434,6 +1434,314 @@ func c05PartNames(kind string) []string {
 	return p.AskedSorted()
 }
 
+// ---------------------------------------------------------------------------------------
+// forms: every value marshalled by value, by pointer and nested by value
+
+// c05Form is one way of handing a value of type T to the encoder / decoder.
+type c05Form struct {
+	name  string
+	wrap  func(x reflect.Value) any                                     // x: a value of type T (not addressable)
+	peel  func(out []byte) (json.RawMessage, error)                     // the part of the output that is x
+	typed func(t reflect.Type) (target any, inner func() reflect.Value) // nil: wrapper cannot be a typed unmarshal target
+}
+
+func c05PeelKey(k string) func([]byte) (json.RawMessage, error) {
+	return func(out []byte) (json.RawMessage, error) {
+		var m map[string]json.RawMessage
+		if err := json.Unmarshal(out, &m); err != nil {
+			return nil, err
+		}
+		raw, ok := m[k]
+		if !ok {
+			return nil, fmt.Errorf("wrapper member %q missing", k)
+		}
+		return raw, nil
+	}
+}
+
+func c05PeelFirst(out []byte) (json.RawMessage, error) {
+	var a []json.RawMessage
+	if err := json.Unmarshal(out, &a); err != nil {
+		return nil, err
+	}
+	if len(a) != 1 {
+		return nil, fmt.Errorf("wrapper array has %d entries", len(a))
+	}
+	return a[0], nil
+}
+
+func c05StructOf(t reflect.Type) reflect.Type {
+	return reflect.StructOf([]reflect.StructField{{Name: "F", Type: t, Tag: `json:"f"`}})
+}
+
+var c05Forms = []c05Form{
+	{"pointer", func(x reflect.Value) any {
+		p := reflect.New(x.Type())
+		p.Elem().Set(x)
+		return p.Interface()
+	}, func(out []byte) (json.RawMessage, error) { return out, nil },
+		func(t reflect.Type) (any, func() reflect.Value) {
+			p := reflect.New(t)
+			return p.Interface(), func() reflect.Value { return p.Elem() }
+		}},
+	{"value", func(x reflect.Value) any { return x.Interface() },
+		func(out []byte) (json.RawMessage, error) { return out, nil }, nil},
+	{"struct-field-by-value", func(x reflect.Value) any {
+		s := reflect.New(c05StructOf(x.Type())).Elem()
+		s.Field(0).Set(x)
+		return s.Interface() // the struct itself by value: its field is not addressable
+	}, c05PeelKey("f"), func(t reflect.Type) (any, func() reflect.Value) {
+		p := reflect.New(c05StructOf(t))
+		return p.Interface(), func() reflect.Value { return p.Elem().Field(0) }
+	}},
+	{"field-of-pointed-struct", func(x reflect.Value) any {
+		s := reflect.New(c05StructOf(x.Type()))
+		s.Elem().Field(0).Set(x)
+		return s.Interface()
+	}, c05PeelKey("f"), nil},
+	{"map-value", func(x reflect.Value) any {
+		m := reflect.MakeMap(reflect.MapOf(reflect.TypeOf(""), x.Type()))
+		m.SetMapIndex(reflect.ValueOf("k"), x)
+		return m.Interface()
+	}, c05PeelKey("k"), func(t reflect.Type) (any, func() reflect.Value) {
+		p := reflect.New(reflect.MapOf(reflect.TypeOf(""), t))
+		return p.Interface(), func() reflect.Value { return p.Elem().MapIndex(reflect.ValueOf("k")) }
+	}},
+	{"slice-element", func(x reflect.Value) any {
+		s := reflect.MakeSlice(reflect.SliceOf(x.Type()), 1, 1)
+		s.Index(0).Set(x)
+		return s.Interface()
+	}, c05PeelFirst, func(t reflect.Type) (any, func() reflect.Value) {
+		p := reflect.New(reflect.SliceOf(t))
+		return p.Interface(), func() reflect.Value {
+			if p.Elem().Len() != 1 {
+				return reflect.Value{}
+			}
+			return p.Elem().Index(0)
+		}
+	}},
+	{"array-element-by-value", func(x reflect.Value) any {
+		a := reflect.New(reflect.ArrayOf(1, x.Type())).Elem()
+		a.Index(0).Set(x)
+		return a.Interface()
+	}, c05PeelFirst, func(t reflect.Type) (any, func() reflect.Value) {
+		p := reflect.New(reflect.ArrayOf(1, t))
+		return p.Interface(), func() reflect.Value { return p.Elem().Index(0) }
+	}},
+	{"interface-in-slice", func(x reflect.Value) any { return []any{x.Interface()} }, c05PeelFirst, nil},
+	{"interface-in-map", func(x reflect.Value) any { return map[string]any{"k": x.Interface()} }, c05PeelKey("k"), nil},
+	{"interface-field", func(x reflect.Value) any {
+		return struct {
+			F any `json:"f"`
+		}{x.Interface()}
+	}, c05PeelKey("f"), nil},
+}
+
+// c05FormShape applies the shape oracle to the output for one value (want: *T).
+func c05FormShape(rp *c05Rep, ctx string, doc any, want any) {
+	switch w := want.(type) {
+	case *osm.OSM:
+		c05ShapeOSM(rp, ctx, doc, w)
+	case *osm.Change:
+		top, ok := doc.(map[string]any)
+		if !ok {
+			rp.violate("shape/"+ctx+"not-an-object", "change is not marshalled as an object")
+			return
+		}
+		for _, b := range []struct {
+			name string
+			o    *osm.OSM
+		}{{"create", w.Create}, {"modify", w.Modify}, {"delete", w.Delete}} {
+			if b.o == nil {
+				continue
+			}
+			if bv, present := top[b.name]; !present {
+				rp.violate("shape/"+ctx+"block-missing", "block "+b.name+" not written")
+			} else {
+				c05ShapeOSM(rp, ctx, bv, b.o)
+			}
+		}
+	case *osm.Node, *osm.Way, *osm.Relation, *osm.Changeset, *osm.Note, *osm.User:
+		kind := strings.ToLower(reflect.TypeOf(want).Elem().Name())
+		el, ok := doc.(map[string]any)
+		if !ok {
+			rp.violate("shape/"+ctx+"not-an-object", kind+" is not marshalled as an object")
+			return
+		}
+		if t, _ := el["type"].(string); t != kind {
+			rp.violate("shape/"+ctx+"element-no-type", fmt.Sprintf("%s marshalled with type %v: %s", kind, el["type"], c05Trim(fw.JSON(el), 300)))
+		}
+		c05ShapeElement(rp, ctx, el, kind, want)
+	case *osm.Tags:
+		if _, ok := doc.(map[string]any); !ok {
+			rp.violate("shape/"+ctx+"tags-not-object", "tags are not marshalled as an object: "+c05Trim(fw.JSON(doc), 300))
+			return
+		}
+		c05ShapeTags(rp, ctx, map[string]any{"tags": doc}, *w)
+	case *osm.WayNodes:
+		if doc == nil && len(*w) == 0 {
+			return
+		}
+		if msg := c05IDArray(doc, *w); msg != "" {
+			rp.violate("shape/"+ctx+"way-nodes-not-id-array", "way nodes: "+msg)
+		}
+	case *osm.Members:
+		if a, ok := doc.([]any); !ok {
+			rp.violate("shape/"+ctx+"members-null", "members not marshalled as an array: "+c05Trim(fw.JSON(doc), 200))
+		} else if len(a) != len(*w) {
+			rp.violate("shape/"+ctx+"members-content", fmt.Sprintf("%d members written, want %d", len(a), len(*w)))
+		}
+	case *osm.Date:
+		if _, ok := doc.(string); !ok && doc != nil {
+			rp.violate("shape/"+ctx+"date-not-string", "date marshalled as "+c05Trim(fw.JSON(doc), 200))
+		}
+	}
+}
+
+// c05FormCompare compares a value read back (got: *T) with the original (want: *T).
+func c05FormCompare(rp *c05Rep, path string, want, got any) {
+	switch w := want.(type) {
+	case *osm.OSM:
+		c05Compare(rp, path, w, got.(*osm.OSM), nil)
+	case *osm.Change:
+		c05CompareChange(rp, path, w, got.(*osm.Change))
+	default:
+		wc := eq.Clone(want)
+		c05Norm(wc)
+		c05Norm(got)
+		if dw, dg := c05Dump(wc), c05Dump(got); dw != dg {
+			name := reflect.TypeOf(want).Elem().Name()
+			f := c05DiffField(wc, got)
+			rp.violate(path+"/"+strings.ToLower(name)+"."+f, fmt.Sprintf("%s differs in %s: %s", name, f, eq.Diff(dw, dg)))
+		}
+		if cs, ok := wc.(*osm.Changeset); ok {
+			c05CompareChange(rp, path+"/changeset-change", cs.Change, got.(*osm.Changeset).Change)
+		}
+	}
+}
+
+// c05FormsOf lists the values (as non-pointer reflect values) of every type that has, or
+// contains by value, a custom (un)marshaler.
+func c05FormsOf(v *osm.OSM) []reflect.Value {
+	out := []reflect.Value{reflect.ValueOf(*v), reflect.ValueOf(osm.Change{Version: "0.6", Create: eq.Clone(v), Delete: &osm.OSM{Version: "0.6"}})}
+	seen := map[string]bool{}
+	for _, s := range c05Slots(v) {
+		if !seen[s.kind] {
+			seen[s.kind] = true
+			out = append(out, reflect.ValueOf(s.v).Elem())
+		}
+	}
+	if len(v.Nodes) > 0 {
+		out = append(out, reflect.ValueOf(v.Nodes[0].Tags))
+	}
+	if len(v.Ways) > 0 {
+		out = append(out, reflect.ValueOf(v.Ways[0].Nodes), reflect.ValueOf(v.Ways[0].Tags))
+	}
+	if len(v.Relations) > 0 {
+		out = append(out, reflect.ValueOf(v.Relations[0].Members))
+	}
+	if len(v.Notes) > 0 {
+		out = append(out, reflect.ValueOf(v.Notes[0].DateCreated), reflect.ValueOf(v.Notes[0].DateClosed))
+	}
+	return out
+}
+
+// c05CheckForms marshals x in every form under every configuration (with the codec installed
+// also by calling the codec itself, as a user of a replacement codec would) and applies the
+// shape and round-trip oracles to the part of the output that is x.
+func (run *c05Run) checkForms(x reflect.Value) {
+	t := x.Type()
+	tn := t.Name()
+	wantP := reflect.New(t)
+	wantP.Elem().Set(x)
+	want := wantP.Interface() // *T, owned by the harness
+	input := "value (" + tn + "): " + c05Trim(eq.Dump(want), 3000)
+	for _, form := range c05Forms {
+		raised := map[string]bool{}
+		for _, cfg := range run.configs {
+			vias := []string{"json.Marshal"}
+			if cfg.m {
+				vias = append(vias, "codec.Marshal")
+			}
+			for _, via := range vias {
+				rp := &c05Rep{res: run.res, cfg: cfg, raised: raised, input: input}
+				var out []byte
+				var err error
+				var ref []byte
+				pan := c05With(cfg, func(codec *c05Codec) {
+					w := form.wrap(x)
+					if via == "codec.Marshal" {
+						out, err = codec.Marshal(w)
+					} else {
+						out, err = json.Marshal(w)
+					}
+					ref, _ = json.Marshal(c05Forms[0].wrap(x))
+					run.recordCodec(cfg, codec)
+				})
+				run.res.Eval("forms/" + cfg.name + "/" + tn + "/" + form.name + "/" + via)
+				run.res.Add("forms_marshalled", 1)
+				path := "forms/" + form.name
+				ctx := "form-" + form.name + "/"
+				if pan != "" {
+					rp.violate(path+"/panic", tn+": marshal panicked: "+pan)
+					continue
+				}
+				if err != nil {
+					rp.violate(path+"/marshal-error", tn+": "+err.Error())
+					continue
+				}
+				rp.input = input + "\nform: " + form.name + " via " + via + "\nmarshalled: " + c05Trim(string(out), 3000)
+				raw, perr := form.peel(out)
+				if perr != nil {
+					rp.violate("shape/"+ctx+"wrapper", tn+": wrapper output unusable: "+perr.Error())
+					continue
+				}
+				doc, gerr := c05Generic(raw)
+				if gerr != nil {
+					rp.violate("shape/"+ctx+"not-json", tn+": "+gerr.Error())
+					continue
+				}
+				c05FormShape(rp, ctx, doc, want)
+				if refDoc, e := c05Generic(ref); e == nil && c05Canon(refDoc) != c05Canon(doc) {
+					rp.violate(path+"/differs-from-pointer-form", tn+" marshalled as "+form.name+" is a different JSON value than marshalled through a pointer: "+eq.Diff(c05Canon(refDoc), c05Canon(doc)))
+				}
+				// read the part back on its own
+				backP := reflect.New(t)
+				var uerr error
+				pan = c05With(cfg, func(codec *c05Codec) { uerr = json.Unmarshal(raw, backP.Interface()) })
+				switch {
+				case pan != "":
+					rp.violate(path+"/panic", tn+": unmarshal panicked: "+pan)
+				case uerr != nil:
+					rp.violate(path+"/unmarshal-error", tn+": the library cannot read its own output: "+uerr.Error())
+				default:
+					c05FormCompare(rp, path, want, backP.Interface())
+				}
+				// and through the same wrapper type
+				if form.typed != nil {
+					target, inner := form.typed(t)
+					pan = c05With(cfg, func(codec *c05Codec) { uerr = json.Unmarshal(out, target) })
+					switch {
+					case pan != "":
+						rp.violate(path+"/panic", tn+": unmarshal into wrapper panicked: "+pan)
+					case uerr != nil:
+						rp.violate(path+"/unmarshal-error", tn+": unmarshal into the wrapper type failed: "+uerr.Error())
+					default:
+						iv := inner()
+						if !iv.IsValid() {
+							rp.violate(path+"/wrapper-lost-value", tn+": wrapper came back without the value")
+							break
+						}
+						gp := reflect.New(t)
+						gp.Elem().Set(iv)
+						c05FormCompare(rp, path, want, gp.Interface())
+					}
+				}
+			}
+		}
+	}
+}
+
 // c05Retained: output handed out by a MarshalJSON method belongs to the caller. Every
 // MarshalJSON method of the library is called directly, the bytes are kept, other values are
 // marshalled (directly and through encoding/json), and only then the kept bytes are looked at
@@ -1753,6 +2061,31 @@ func c05Exec(c fw.Case) *fw.Result {
 				res.Put("toggled_parts", fmt.Sprintf("%s/%v", n, invert))
 			}
 		}
+	case "forms":
+		for i := 0; i < int(c.Int("docs")); i++ {
+			g := jsonw.NewGen(r, jsonw.Random{R: r, P: float64(c.Int("p")) / 100})
+			g.ZeroP = float64(c.Int("zerop")) / 100
+			d := &jsonw.Doc{VersionKind: jsonw.VersionString, Version: "0.6"}
+			g.Top(d)
+			for _, k := range jsonw.Kinds {
+				for j, n := 0, r.Range(1, 2); j < n; j++ {
+					d.Elements = append(d.Elements, g.Element(k))
+				}
+			}
+			v := c05Expect(d).o
+			c05Annotate(v, r)
+			for _, x := range c05FormsOf(v) {
+				run.checkForms(x)
+				res.Put("forms_types", x.Type().String())
+			}
+			if i == 0 {
+				// and the zero value of every type
+				for _, x := range c05FormsOf(v) {
+					run.checkForms(reflect.Zero(x.Type()))
+				}
+			}
+		}
+		res.Sample = map[string]any{"forms": len(c05Forms), "documents": c.Int("docs")}
 	case "retained":
 		c05Retained(res, run, c, r)
 	case "concurrent":
@@ -1882,6 +2215,13 @@ func c05Cases(tier string, seed uint64) []fw.Case {
 		nRet, reps = 60, 40
 	}
 	for i := 0; i < nRet; i++ {
+		p := map[string]int64{"docs": 3, "p": []int64{85, 100, 40, 60}[i%4], "zerop": []int64{0, 0, 30, 100}[i%4]}
+		if i%2 == 1 {
+			p["allconfigs"] = 1
+		}
+		cs = append(cs, fw.Case{Kind: "forms", Seed: gen.Sub(seed, "c05forms", i), P: p})
+	}
+	for i := 0; i < nRet; i++ {
 		cs = append(cs, fw.Case{Kind: "retained", Seed: gen.Sub(seed, "c05ret", i), P: map[string]int64{"docs": 6}})
 	}
 	for i, v := range []string{"", "", "race", "race"} {
@@ -1927,7 +2267,7 @@ func init() {
 		ID:    "C05",
 		Level: "exploration",
 		Rule: "typed osmjson document models (every optional key a present/absent bit) from the harness generator: (a) fixed minimal documents; (b) all 32 combinations of generator/copyright/attribution/license/bounds for each version spelling (absent, number, string, null); " +
-			"(c) per element kind every optional part alone and all-but-it; (c') boundary values: on the value side every operator of a fixed table (non-nil pointer to an all-zero struct for top-level / way / relation bounds, committed, discussion, nested change and its blocks; empty but non-nil slices; zero ids, versions, coordinates, timestamps; empty strings; all-zero elements and members) alone, combined with an all-zero top-level bounds, and all at once, on four base containers, each as osm.OSM, as every block of an osm.Change and element by element; on the document side written values drawn as 0 / \"\" / [] / {} (bounds with members left out) with probability 15-100 %; (c'') retained output: every MarshalJSON method of the library (OSM, Tags, WayNodes, Members, Date) called directly, the bytes kept while other values are marshalled, then checked unchanged and still denoting the original; concurrent: 16 goroutines marshalling / unmarshalling their own documents at once, one phase per codec configuration (codec installed before the goroutines start), plain and race builds; (d) PRNG documents over kind masks, presence probabilities 0..100 %, 0-12 elements, arbitrary UTF-8 incl. control characters, negative and >2^40 ids, equivalent float and RFC 3339 spellings, unknown keys at every level; (e) change documents. " +
+			"(c) per element kind every optional part alone and all-but-it; (c') boundary values: on the value side every operator of a fixed table (non-nil pointer to an all-zero struct for top-level / way / relation bounds, committed, discussion, nested change and its blocks; empty but non-nil slices; zero ids, versions, coordinates, timestamps; empty strings; all-zero elements and members) alone, combined with an all-zero top-level bounds, and all at once, on four base containers, each as osm.OSM, as every block of an osm.Change and element by element; on the document side written values drawn as 0 / \"\" / [] / {} (bounds with members left out) with probability 15-100 %; (c3) forms: osm.OSM, osm.Change, every element kind, Tags, WayNodes, Members, Date (generated and zero values) marshalled as pointer, plain value, struct field by value, field of a pointed-to struct, map value, slice element, array element by value and inside interface{} (slice, map, field), through json.Marshal and through the installed codec itself; shape + round trip of the part that is the value, and equality with the pointer form; (c'') retained output: every MarshalJSON method of the library (OSM, Tags, WayNodes, Members, Date) called directly, the bytes kept while other values are marshalled, then checked unchanged and still denoting the original; concurrent: 16 goroutines marshalling / unmarshalling their own documents at once, one phase per codec configuration (codec installed before the goroutines start), plain and race builds; (d) PRNG documents over kind masks, presence probabilities 0..100 %, 0-12 elements, arbitrary UTF-8 incl. control characters, negative and >2^40 ids, equivalent float and RFC 3339 spellings, unknown keys at every level; (e) change documents. " +
 			"Each model is written by the independent writer (shuffled keys, white space, \\u escapes) and unmarshalled, and the value it denotes (plus way-node annotations) is marshalled, shape-checked on a generic parse and unmarshalled again; every step under the default and the recording user codec (a quarter of the cases also with only one of the two hooks installed). " +
 			"One evaluation = one (model, flow, configuration); a signature is (flow, configuration, version spelling, top-level presence mask, bounds, unknown keys, element kinds present).",
 		Assumptions: []string{
